@@ -152,12 +152,53 @@ theorem C18_old_getpoint_secret (P : Prims) (style : Style) (h : style = .native
       · injection hr with hr; subst hr; rw [hk]; simp [h2]
       · cases hr
 
+/-- "is this your secret `n`?" is answered from `keysOf seed net id` alone: the same answer for the
+same id in every history, before and after setup, whatever the channel's commitment counter is -/
+theorem C18_future_secret_check (P : Prims) (style : Style) (h : style = .native ∨ style = .ldk)
+    (seed : Bytes) (net : Net) (ops : List Op) (c : Chan) (hc : c ∈ (run P style seed net ops).chans)
+    (H : Bytes → Bytes) (n : Nat) (s : Bytes) :
+    checkFutureSecret H c n s = (holderSecret H (keysOf P style seed net c.id) n == some s) := by
+  unfold checkFutureSecret
+  rw [C18_stateless_history P style h seed net ops c hc]
+
 /-- a restart keeps every channel (id, readiness, value, commitment counter) -/
 theorem C18_restart_keeps_channels (P : Prims) (style : Style) (seed : Bytes) (net : Net) (s : NodeSt) :
     (step P style seed net s .restart).chans.map (fun c => (c.id, c.ready, c.value, c.nextHolder))
       = s.chans.map (fun c => (c.id, c.ready, c.value, c.nextHolder)) := by
   simp only [step]
   exact restoreChans_shape P style seed net s.chans KMState.fresh
+
+/-! ## Re-derivation at sweep time -/
+
+/-- what the source says now: signers are derived at creation and restore (from the id) and in the
+two descriptor arms of `spend_spendable_outputs`, there from the descriptor's keys id through
+`derive_channel_keys = get_channel_keys_with_keys_id`; nowhere else -/
+theorem C18_gen_sweep : sweepRederivesFromKeysId = true := by decide
+
+/-- **C18_sweep_rederive.** Whatever the history and whatever the manager's counters are at sweep
+time, the signer `spend_spendable_outputs` re-derives from the `channel_keys_id` recorded by a
+channel's signer holds exactly that channel's key material — the keys the channel reported at
+creation, after setup and after every restart (`keysOf seed net id`). -/
+theorem C18_sweep_rederive (P : Prims) (style : Style) (h : style = .native ∨ style = .ldk)
+    (seed : Bytes) (net : Net) (ops : List Op) (c : Chan) (hc : c ∈ (run P style seed net ops).chans)
+    (st : KMState) :
+    sweepSigner P style seed net c st = c.keys ∧ sweepSigner P style seed net c st = keysOf P style seed net c.id := by
+  have hk := C18_stateless_history P style h seed net ops c hc
+  have hr : sweepSigner P style seed net c st = keysOf P style seed net c.id := by
+    unfold sweepSigner
+    rw [hk]
+    exact rederive_from_recorded_keysId P style (C18_styles_stateless style h) seed net c.id KMState.fresh st
+  exact ⟨hr.trans hk.symm, hr⟩
+
+/-- Treating the recorded keys id as a channel *id* (deriving `keys_id` a second time) is a
+different function: with primitives that make the inputs visible the two signers differ. -/
+theorem C18_sweep_via_id_differs :
+    ∃ (P : Prims) (c : Chan), c ∈ (run P .ldk [5] .testnet [.newChan [7]]).chans ∧
+      channelKeys P .ldk [5] .testnet c.keys.keysId KMState.fresh ≠ c.keys := by
+  refine ⟨{ hkdf32 := fun _ _ salt => 1 :: salt, chanKeys := fun _ i => ⟨i.keysId, [], [], [], [], []⟩, randomId := fun _ => [] },
+    ⟨[7], ⟨[0, 0], [0, 0], [], [], [], [], []⟩, false, 0, 0⟩, ?_, ?_⟩
+  · decide
+  · decide
 
 /-! The LND style is excluded by the property, and rightly so: with the table as generated
 (`lndChanKeys.basepointIndex = true`) the model exhibits two creation orders that give one id
@@ -258,7 +299,7 @@ theorem C18_distinct_partial (P : Prims) (style : Style) (seed : Bytes) (net : N
     fun he => hne (hinj id₁ id₂ he)
   refine ⟨hk, fun he => hk ?_⟩
   have := congrArg KeyMaterial.keysId he
-  simpa [channelKeys] using this
+  simpa [channelKeys, channelKeysFromKeysId] using this
 
 /-- **Refutation of the unconditional statement for the real HKDF-SHA256**: the ids `[]` and `[0]`
 (more generally `id` and `id ++ [0]` for `id` shorter than 64 bytes) get the same keys, for every
@@ -286,7 +327,7 @@ theorem C18_keys_id_zero_padding (child : Bytes → Net → Nat → Bytes) (styl
 
 /-- a non-trivial history: two channels, a random one, setup, advances, entropy use, two restarts -/
 def sampleOps : List Op :=
-  [.newChan [7], .entropy, .newChan [9], .newRandom, .setup [7] 1000, .advance [7], .advance [7],
+  [.newChan [7], .entropy, .newChan [9], .newRandom, .setup [7] 1000, .advance [7], .advance [7], .sweep,
    .restart, .newChan [8], .advance [7], .restart]
 
 example : ((run witnessPrims .native [5] .testnet sampleOps).chans.map (fun c => (c.id, c.ready, c.nextHolder)))
